@@ -273,3 +273,16 @@ class Report:
     def to_dict(self):
         return {"evaluations": self.evaluations, "distinct_nontrivial": len(self.nontrivial), "rule": self.rule, "histogram": self.histogram,
                 "samples": self.samples, "disagreements": self.disagreements, "oracle_failures": self.oracle_failures, "skipped": self.skipped}
+
+
+def lossy(rel):
+    """how a path appears in sy's JSON output (to_string_lossy): bytes that are not UTF-8 become U+FFFD"""
+    return rel.encode("utf-8", "surrogateescape").decode("utf-8", "replace")
+
+def unlossy(names):
+    """JSON carries paths lossily: a function mapping a reported path back to the real name where that is unambiguous
+    among `names` (the names the run could have meant), identity otherwise"""
+    back = {}
+    for r_ in names:
+        back.setdefault(lossy(r_), set()).add(r_)
+    return lambda r_: next(iter(back[r_])) if r_ in back and len(back[r_]) == 1 else r_
